@@ -269,7 +269,7 @@ pub fn run(ctx: &mut Ctx) {
             for name in ["feature1", "Feature1", "feature", "feature10", "ab", "a", "", "b"] {
                 let member = cfg.targets.iter().any(|t| t == name);
                 for with_skip in [false, true] {
-                    for comment in [None, Some("skip"), Some("please skip this"), Some("name='feature1'")] {
+                    for comment in [None, Some("skip"), Some("please skip this"), Some("name='feature1'"), Some("don't skip yet"), Some("say \"skip\" now")] {
                         let mut attrs: Vec<(String, Option<String>)> = vec![("name".into(), Some(name.to_string()))];
                         if with_skip {
                             // a skip attribute is a skip attribute, with or without a value
@@ -358,7 +358,7 @@ pub fn run(ctx: &mut Ctx) {
             attrs.push(("skip".into(), None));
         }
         if r.chance(1, 3) {
-            attrs.push(("c".into(), Some(r.pick(&["skip", "skip it", "unwrap-block", " skip "]).to_string())));
+            attrs.push(("c".into(), Some(r.pick(&["skip", "skip it", "unwrap-block", " skip ", "don't skip", "it's name='a' here", "x \"skip\" y"]).to_string())));
         }
         if r.chance(1, 3) {
             attrs.push(("Skip".into(), None));
